@@ -120,7 +120,11 @@ class Tmatrix(ScatteringTheory):
         eps = rxy/rz
         # a vanishing (or underflowing) equal-volume radius or aspect ratio
         # makes the Fortran code index outside its arrays and ends the process
-        if not (axi > 0 and eps > 0 and np.isfinite(axi) and np.isfinite(eps)):
+        # (the Fortran code forms eps**2 and 1/eps**2, which must not
+        # underflow or overflow either)
+        if not (axi > 0 and eps > 0 and np.isfinite(axi) and np.isfinite(eps)
+                and eps * eps > 0 and np.isfinite(eps * eps)
+                and np.isfinite(1 / (eps * eps))):
             raise InvalidScatterer(
                 scatterer, "T-matrix calculations need positive, finite sizes")
         NP = -1 - int(iscyl)
